@@ -223,6 +223,27 @@ def c15(ctx):
                           q.loc_of(f.blocks[u]["term"]), TRY_REFLINK,
                           "reflink=auto and the clone did not happen: a non-failing return exists: %s" % okf,
                           None if okf else dict(start="bb%d" % v)))
+    # outside the Never arm, no return without having asked for the clone
+    if f is not None and ve:
+        cfg = cfg_of(f)
+        sig = r_err.signal_blocks(f)
+        sb, m, other = ve[0]
+        never_edges = [(sb, m["Never"])] if "Never" in m else []
+        perf = [b_ for b_, t_, h_ in ro.performers(fx, f, REFLINK)]
+        r = cfg.reach([0], blocked=set(sig) | set(perf), blocked_edges=never_edges)
+        leak = [b_ for b_ in cfg.returns if b_ in r]
+        obs.append(Ob("R-ORDER", mkkey("R-ORDER", TRY_REFLINK, REFLINK, 0, "attempt-unless-never"), not leak, f.loc(), TRY_REFLINK,
+                      "unless the mode is Never, try_reflink cannot return without a clone attempt: %s" % (not leak),
+                      None if not leak else dict(returns=leak, note="a path returns Ok without calling libfs::reflink")))
+    g0 = fx.fn(REFLINK)
+    if g0 is not None:
+        cfg = cfg_of(g0)
+        io = [b_ for b_, t_ in q.calls_to(g0, IOCTL)]
+        r = cfg.reach([0], blocked=set(io))
+        leak = [b_ for b_ in cfg.returns if b_ in r]
+        obs.append(Ob("R-ORDER", mkkey("R-ORDER", REFLINK, IOCTL, 0, "always-asks-kernel"), bool(io) and not leak, g0.loc(), REFLINK,
+                      "libfs::reflink asks the kernel on every call (no remembered answer): %s" % (bool(io) and not leak),
+                      None if (io and not leak) else dict(returns=leak)))
     # clone before any data copy, in every function that asks for the clone
     hosts = [g for g in ro.fns_in_scope(fx, crates=("libxcp",)) if ro.performers(fx, g, TRY_REFLINK, direct_only=True)]
     if len(hosts) < 2:
@@ -429,6 +450,37 @@ def sibling_agreement(fx, variants=("Link", "Special", "Copy")):
     return obs
 
 
+def arms_must_create(fx, variants=("Copy", "Link", "Special")):
+    """In both workers, every path through the arm of an Operation variant performs the creating call of that
+    kind (truncating open+sizing / symlink / mknod) or fails: an arm cannot silently skip its entry."""
+    obs = []
+    creators = {"Copy": {NEW}, "Link": {SYMLINK}, "Special": {MKNODAT}}
+    for w in (PF_WORKER, PB_DISPATCH):
+        f, regs = op_regions(fx, w)
+        if f is None or not regs:
+            obs.append(anchor_ob("R-ORDER", "%s dispatches on Operation" % w))
+            continue
+        cfg = cfg_of(f)
+        sig = r_err.signal_blocks(f)
+        sw = type_variant_switches(f, OPERATION)
+        sb, m = sw[0]
+        for v in variants:
+            if v not in regs:
+                obs.append(anchor_ob("R-ORDER", "%s: Operation::%s arm" % (w, v)))
+                continue
+            region = regs[v]
+            perf = [b_ for b_, t_, h_ in ro.performers(fx, f, creators[v]) if b_ in region]
+            r = cfg.reach([m[v]], blocked=set(sig) | set(perf))
+            # shared `unreachable` blocks (the `otherwise` of exhaustive switches) are dead ends, not exits
+            leaves = sorted(b_ for b_ in r if b_ not in region and (cfg.succ[b_] or b_ in cfg.returns))
+            ok = bool(perf) and not leaves
+            obs.append(Ob("R-ORDER", mkkey("R-ORDER", w, "Operation::" + v, 0, "creates-or-fails"), ok, f.loc(), w,
+                          "%s: every path through the %s arm performs %s or fails: %s" % (
+                              w.split("::")[-1], v, "/".join(sorted(x.split("::")[-1] for x in creators[v])), ok),
+                          None if ok else dict(performers=perf, leaves_arm_at=leaves[:5])))
+    return obs
+
+
 def specials_never_opened(fx):
     obs = []
     cg = q.callgraph(fx)
@@ -455,6 +507,7 @@ def c14(ctx):
     ctx.add(filetype_table(fx))
     ctx.add(mknod_provenance(fx))
     ctx.add(sibling_agreement(fx, variants=("Special",)))
+    ctx.add(arms_must_create(fx, variants=("Special",)))
     ctx.add(specials_never_opened(fx))
     import p_role
     ctx.add([o for o in p_role.role_obs(fx) if "copy_node" in o.key or "mknodat" in o.key or "Special" in o.key])
@@ -891,6 +944,18 @@ def c16(ctx):
                     it_ok = True
     obs.append(Ob("R-ORDER", mkkey("R-ORDER", MAIN, "validate-all-sources", 0), it_ok, m.loc(), MAIN,
                   "a loop over the expanded source list completes before the copy starts: %s" % it_ok))
+    # the walk follows a symlink given as a source (walkdir follows root links), so the validation must too:
+    # an lstat-based test accepts a dangling link, which then fails in the walker after earlier sources were copied
+    k = 0
+    for bi, t in m.calls():
+        if bi in prefix and q.names(t)[0] in LSTAT and not q.span_excluded(t["span"]):
+            obs.append(Ob("R-PROBE", mkkey("R-PROBE", MAIN, q.names(t)[0], k, "validation-follows-links"), False, q.loc_of(t), MAIN,
+                          "source validation uses %s, which does not follow symlinks although the walk does" % q.names(t)[0].split("::")[-1],
+                          dict(callee=q.names(t)[0])))
+            k += 1
+    follows = [t for bi, t in m.calls() if bi in prefix and q.names(t)[0] in LINK_FOLLOWING]
+    obs.append(Ob("R-PROBE", mkkey("R-PROBE", MAIN, "source-probes", 0, "validation-follows-links"), bool(follows) and k == 0, m.loc(), MAIN,
+                  "main validates sources with link-following probes (%d sites, %d lstat sites)" % (len(follows), k)))
     # same mapping rule in the pre-flight and in the walker
     obs += target_base_agreement(fx)
     ctx.add(obs)
